@@ -7,6 +7,7 @@ CONSTANTS
   CLimits = {1, 2}
   MaxCalls = 2
   MaxDialFail = 1
+  DONE_EARLY = FALSE
   DOUBLE_COUNT = FALSE
 INVARIANTS ConnLimit ExactConn EarlyLimit NoSpuriousRefusal NoRefusalIfEqual QuietFree
 CHECK_DEADLOCK FALSE
